@@ -47,7 +47,7 @@ Definition total (l : coll) : R := Rsum (map snd l).
 Definition max_amp (l : coll) : R := fold_right (fun p acc => Rmax (fst p) acc) 0 l.
 (* S[hi > 0].max(): the largest OCCUPIED amplitude *)
 Definition max_occ (l : coll) : R :=
-  fold_right (fun p acc => if Rlt_dec 0 (snd p) then Rmax (fst p) acc else acc) 0 l.
+  fold_right (fun p acc => Rmax (if Rlt_dec 0 (snd p) then fst p else 0) acc) 0 l.
 
 (* solidity.haibach / solidity.fkm *)
 Definition solidity_haibach (l : coll) (k : R) : R :=
